@@ -71,7 +71,9 @@ def is_excluded_by_statement(path_parts, basename, rel, patterns):
         if not pat:
             continue
         if anchored:
-            if fnmatch.fnmatchcase(rel, pat) or fnmatch.fnmatchcase(rel, pat + "/*") or rel.startswith(pat + "/"):
+            # a pattern that starts with a wildcard component ("*/sub/*") also covers the top level: ./sub/... is such a path
+            if fnmatch.fnmatchcase(rel, pat) or fnmatch.fnmatchcase(rel, pat + "/*") or rel.startswith(pat + "/") or \
+                    (pat.startswith("*") and fnmatch.fnmatchcase("./" + rel, pat)):
                 return True
         else:
             if any(fnmatch.fnmatchcase(part, pat) for part in path_parts[:-1]) or fnmatch.fnmatchcase(basename, pat):
@@ -162,10 +164,18 @@ def run(R, replay=None):
         os.chdir(root)
         try:
             cfgf = None
-            if cfg_x is not None:
+            # include patterns from the configuration file: extensions, and patterns with a separator (such a pattern can
+            # only ever match a path, never a bare name, so "name matches" is read as "walked path matches" for it)
+            cfg_i = rng.choice([None, None, None, ["*.py", "*.pyw"], ["*.py", "*/sub/*"], ["*.txt", "*/pkg/*"], ["*/s*/*", "*.py"], ["*"]])
+            if cfg_x is not None or cfg_i is not None:
                 import yaml
                 cfgf = os.path.join(base, "cfg%d.yaml" % it)
-                yaml.safe_dump({"exclude_dirs": cfg_x}, open(cfgf, "w"))
+                doc = {}
+                if cfg_x is not None:
+                    doc["exclude_dirs"] = cfg_x
+                if cfg_i is not None:
+                    doc["include"] = cfg_i
+                yaml.safe_dump(doc, open(cfgf, "w"))
             mgr = impl.make_manager(config_file=cfgf)
             inc = list(mgr.b_conf.get_option("include") or ["*.py"])
             mgr.discover_files(list(targets), recursive, xp)
@@ -174,7 +184,8 @@ def run(R, replay=None):
             walks = {t: [(r, sorted(fs)) for r, _, fs in os.walk(t)] for t in targets if isdir.get(t)}
         finally:
             os.chdir(old)
-        inp = {"tree_files": files, "targets": targets, "recursive": recursive, "exclude": xp, "config_exclude_dirs": cfg_x}
+        inp = {"tree_files": files, "targets": targets, "recursive": recursive, "exclude": xp, "config_exclude_dirs": cfg_x, "config_include": cfg_i}
+        R.count("include:" + ("default" if cfg_i is None else ",".join(cfg_i)))
         R.case(("tree", tuple(files), tuple(targets), recursive, xp), sample=dict(inp, scanned=got_f[:8], excluded=got_x[:6]))
         R.count("x:" + (xp or "<empty>"))
         R.count("spelling:" + ("abs" if spelling == root else spelling))
@@ -200,13 +211,17 @@ def run(R, replay=None):
             pats = [x for x in xp.split(",") if x] + list(cfg_x or [])
             for w in walked:
                 parts = w.split(os.sep)
-                matches_inc = any(fnmatch.fnmatchcase(parts[-1], g) for g in inc)
+                as_listed = [p for p in got_f + got_x if norm(p if not os.path.isabs(p) else os.path.relpath(p, root)) == norm(w)]
+                matches_inc = any(fnmatch.fnmatchcase(parts[-1], g) if "/" not in g else any(fnmatch.fnmatchcase(p, g) for p in as_listed) for g in inc)
                 excl = is_excluded_by_statement(parts, parts[-1], w, pats)
                 want = matches_inc and not excl
                 got = norm(w) in {norm(p if not os.path.isabs(p) else os.path.relpath(p, root)) for p in got_f}
                 if want != got and w not in explicit:
                     sig = None
-                    if want and not got and any((p.strip("*/") and p.strip("*/") in w) or (p and not any(ch in p for ch in "*?[") and p in "./" + w) for p in pats):
+                    # the mechanism of the known finding: an exclude string, as the configuration / -x gave it (a -x entry that
+                    # is a directory gets "/*" appended), occurs in the path as a plain substring
+                    eff = list(cfg_x or []) + [os.path.join(x, "*") if isdir.get(x) else x for x in xp.split(",") if x]
+                    if want and not got and any(e in pl for e in eff for pl in as_listed):
                         sig = "exclude-by-substring"
                     elif (not want) and got and excl:
                         sig = "exclude-depends-on-spelling"
